@@ -26,7 +26,8 @@ type c19Spec struct {
 	Stopped   int        `json:"replica_with_stopped_replication"`
 	NoSemi    bool       `json:"semi_sync_off"`                                // the pre-switchover turbo phase exists only with semi-sync; without it the switchover itself must switch optimisation off
 	SlowTurbo bool       `json:"target_answers_slowly_during_the_turbo_phase"` // the first two settings statements reaching the target after the turbo phase registered it take 4 s each
-	Subject   int        `json:"subject_replica"`                              // register_just_above_high: which replica (the daemons start 0.7 s apart, so this varies the phase between its health checks and the manager's ticks)
+	TwoLeave  bool       `json:"two_relaxed_registered_hosts_leave_in_one_pass_first_restore_fails"`
+	Subject   int        `json:"subject_replica"` // register_just_above_high: which replica (the daemons start 0.7 s apart, so this varies the phase between its health checks and the manager's ticks)
 }
 
 var c19Events = []string{"steady", "converge", "diverge", "operator_enable", "operator_disable", "switch_to_lagging", "switch_from", "offline_by_lag", "register_just_above_high"}
@@ -61,6 +62,14 @@ func c19Gen(seed int64, idx int) c19Spec {
 		if sp.Stopped == 0 {
 			sp.Stopped = -1
 		}
+	}
+	if sp.Event == "converge" && (idx/len(c19Events))%2 == 0 {
+		// two registered hosts, both relaxed by an earlier manager and both converged, leave the registry in the same
+		// pass, and the first restore statement of that pass fails
+		sp.TwoLeave, sp.FailEach, sp.Stopped = true, 0, -1
+		sp.Reg[0], sp.Reg[1] = "enabled", "enabled"
+		sp.Lags[0], sp.Lags[1] = fp(10), fp(10)
+		sp.PreRelax[0], sp.PreRelax[1] = false, false
 	}
 	if sp.Event == "register_just_above_high" {
 		// the first replica is clean, unregistered and not lagging until the event; no failing statements
@@ -113,7 +122,12 @@ func c19Run(u *Unit) {
 			if i == sp.Stopped {
 				x.IORun, x.SQLRun = false, false
 			}
+			if sp.TwoLeave && i < 2 {
+				x.SyncBinlog, x.FlushLog = 1000, 2
+				x.SyncBinlogWriter, x.FlushLogWriter, x.SettingsWriter = "mysync_"+hosts[0], "mysync_"+hosts[0], "mysync_"+hosts[0]
+			}
 		}
+		var firstRestore, restoredOnce atomic.Bool
 		var fmu sync.Mutex
 		nset := 0
 		var turboArmed atomic.Int32
@@ -127,6 +141,10 @@ func c19Run(u *Unit) {
 			})
 		}
 		w.Fault = func(c *world.StmtCtx) world.FaultAction {
+			if sp.TwoLeave && (c.Class == "set_sync_binlog" || c.Class == "set_flush") && strings.HasPrefix(c.Caller, "mysync_") && firstRestore.CompareAndSwap(false, true) {
+				sc.Cover("first-restore-of-a-batch-failed")
+				return world.FaultAction{Kind: "fail", Errno: 1105}
+			}
 			if sp.SlowTurbo && c.Host == hosts[1] && (c.Class == "set_sync_binlog" || c.Class == "set_flush") && strings.HasPrefix(c.Caller, "mysync_") {
 				if n := turboArmed.Load(); n >= 1 && n <= 2 && turboArmed.CompareAndSwap(n, n+1) {
 					return world.FaultAction{Kind: "slow", Delay: 4 * time.Second}
@@ -181,6 +199,9 @@ func c19Run(u *Unit) {
 			if sw || swBeg || next != "Manager" || sp.FailEach > 0 {
 				return
 			}
+			if sp.TwoLeave && !restoredOnce.Load() {
+				return // the hostile initial state (two hosts relaxed) lasts until a pass got its restore statements through
+			}
 			w.Lock()
 			defer w.Unlock()
 			ms := w.Servers[s.CachedMaster()]
@@ -228,6 +249,7 @@ func c19Run(u *Unit) {
 			mu.Lock()
 			drops++
 			mu.Unlock()
+			restoredOnce.Store(true)
 			sc.Cover("registry-drop")
 			x, ms := w.Servers[h], w.Servers[s.CachedMaster()]
 			if x == nil || !registered[h] {
@@ -390,7 +412,7 @@ func lagStr(l []*float64) string {
 func init() {
 	register(&Prop{ID: "C19", Units: func(tier string) int { return tierN(tier, 270, 6300) }, Run: c19Run,
 		Floor: func(string) []string {
-			return []string{"one-replica-optimizing", "registry-drop", "drop-of-unregistered-host", "promotion", "converged-or-unknown-lag-host", "registered-just-above-the-high-mark", "turbo-phase-with-slow-target"}
+			return []string{"one-replica-optimizing", "registry-drop", "drop-of-unregistered-host", "promotion", "converged-or-unknown-lag-host", "registered-just-above-the-high-mark", "turbo-phase-with-slow-target", "first-restore-of-a-batch-failed"}
 		},
 		Rule: "scenario = 3-5 node cluster (semi-sync off in a third) with per-replica lag around both marks {10,59,60,119,120,121,500}, a replica with stopped replication (unknown lag), initial registry entries (none / new / enabled, plus an unregistered host), settings already relaxed by the operator, every k-th settings statement failing, and an event (steady, lags converge, lags diverge, operator enables all, operator disables all, planned switchover to a lagging target, switchover from the master, replica taken offline by lag, replica registered while its falling lag is just above the high mark under a slow manager whose health-record reads are stale when it acts); oracles on ground truth: after every completed manager iteration that ran its sync at most one replica carries relaxed settings last written by mysync and none untracked, every registry drop by a daemon finds the host's settings equal to the master's (or the host unregistered), promotions find the target unrelaxed and unregistered, a freeze begins with no relaxed member, converged / unknown-lag hosts end restored and dropped; distinct by the cover tuple"})
 }
